@@ -18,7 +18,7 @@ use crate::corpus;
 use crate::ev::{self, Acc, Ctx, Finish, Violation};
 use crate::fmts::{Fmt, ALL};
 use crate::gen::GenOpts;
-use crate::mon::{OverReportReader, Sched, SchedReader};
+use crate::mon::{OverReportReader, PanickyReader, Sched, SchedReader};
 use crate::rng::Rng;
 use crate::run::{guarded, guarded_any};
 
@@ -97,6 +97,38 @@ pub fn workload(seed: u64, shard: usize, of: usize, cases: usize, miri: bool) ->
             let mut out = Vec::new();
             let v = guarded(|| xt::translate_reader(OverReportReader { data: &input, pos: 0, excess: ex, on_call, calls: 0 }, Some(xt::Format::Yaml), to.xt(), &mut out));
             bump(&format!("over_report_api_{}", v.class()), 1);
+        }
+        // 3b. readers with a hostile life cycle: a panic inside read() on a chosen call, a panic in the
+        //     reader's destructor. Explicit YAML keeps the reader inside the parser until the parser is
+        //     dropped, so the destructor panic is raised from inside the binding's own Drop.
+        //     A destructor panic is only driven where no heap-owning return value is in flight (the raw
+        //     parser hook; explicit-YAML translations that succeed): Rust itself leaks a function's
+        //     return value when a local's destructor panics on the way out, which is not xt's doing.
+        let life: Vec<(Option<u64>, bool)> = if miri { vec![(None, true)] } else { vec![(None, true), (Some(rng.below(4) as u64), false), (Some(rng.below(3) as u64), true)] };
+        for (panic_on_read, panic_in_drop) in life {
+            let max_read = *rng.pick(&[1usize, 7, 97, 4096, 1 << 20]);
+            let mk = || PanickyReader { data: &input, pos: 0, max_read, panic_on_read, panic_in_drop, calls: 0 };
+            let r = guarded_any(|| xt::verif::yaml_events_then_drop(mk(), rng.below(40)));
+            bump(if r.is_ok() { "panicky_reader_raw_parser_returned" } else { "panicky_reader_raw_parser_panicked" }, 1);
+            if panic_in_drop {
+                bump("readers_panicking_in_drop", 1);
+                let mut out = Vec::new();
+                let baseline_ok = guarded(|| xt::translate_reader(SchedReader::new(&input, Sched::Fixed(max_read)), Some(xt::Format::Yaml), to.xt(), &mut out)).is_ok();
+                if baseline_ok && panic_on_read.is_none() {
+                    let mut out = Vec::new();
+                    let r = guarded_any(|| xt::translate_reader(mk(), Some(xt::Format::Yaml), to.xt(), &mut out).is_ok());
+                    bump(if r.is_ok() { "panicky_reader_api_returned" } else { "panicky_reader_api_panicked" }, 1);
+                    bump("readers_panicking_in_drop", 1);
+                }
+                continue;
+            }
+            for from in [Some(xt::Format::Yaml), None] {
+                let mut out = Vec::new();
+                let r = guarded_any(|| xt::translate_reader(mk(), from, to.xt(), &mut out).is_ok());
+                bump(if r.is_ok() { "panicky_reader_api_returned" } else { "panicky_reader_api_panicked" }, 1);
+            }
+            let r = guarded_any(|| xt::verif::yaml_chunks(mk(), 1 + rng.below(3)).len());
+            bump(if r.is_ok() { "panicky_reader_chunker_returned" } else { "panicky_reader_chunker_panicked" }, 1);
         }
         // (large boundary inputs: the event-by-event stages below add nothing)
         if input.len() > 30_000 {
@@ -385,7 +417,7 @@ pub fn run(ctx: &Ctx) -> i32 {
     let rule = format!("AddressSanitizer+LeakSanitizer: {} shards x {} corpus inputs (mixed corpus, UTF-16/32 re-encodings, every fifth one a ~45 KiB YAML text with multi-byte characters on every alignment around the 8/16/24/32 KiB read boundaries) each driven as YAML explicit and detected through the public API with read sizes 1..17 / random / whole, reader errors at sampled offsets, over-reporting readers (excess 1..64, first/second/third call) straight into the raw parser and the chunker via the hook and through the public API, early drop of the parser after EVERY event count, chunker abandoned after one document, re-encoder surrogate/range boundary units; Miri: {} shards x {} seed inputs of the same workload; valgrind memcheck on the release binary in the thorough tier; conservation of Parser/Event new vs drop; distinct non-trivial = inputs driven", shards, cases_per_shard, shards, miri_cases);
     let mut extra = serde_json::Map::new();
     extra.insert("explanation".into(), json!("sanitizer verdict: zero AddressSanitizer/LeakSanitizer/Miri reports over the executed workload; a clean run says nothing about paths the workload did not reach"));
-    let mut f = Finish { ctx, level: "other", rule, assumptions: vec!["red-zone tools miss intra-object overflows; Miri covers part of that gap on the smaller workload".into(), "panics are an allowed outcome for contract-violating readers and are counted".into()], extra, exhaustive: false, min_distinct: 100, must_reach: vec![("leak_detector_selftest_fired".into(), 1), ("asan_shards_clean".into(), shards as u64), ("miri_shards_clean".into(), shards as u64), ("hit_READ_HANDLER_OVER_REPORT".into(), 10), ("hit_READ_HANDLER_ERROR".into(), 10), ("early_drop_points".into(), 1000), ("inputs_boundary_straddling".into(), 50)] };
+    let mut f = Finish { ctx, level: "other", rule, assumptions: vec!["red-zone tools miss intra-object overflows; Miri covers part of that gap on the smaller workload".into(), "panics are an allowed outcome for contract-violating readers and are counted".into()], extra, exhaustive: false, min_distinct: 100, must_reach: vec![("leak_detector_selftest_fired".into(), 1), ("asan_shards_clean".into(), shards as u64), ("miri_shards_clean".into(), shards as u64), ("hit_READ_HANDLER_OVER_REPORT".into(), 10), ("hit_READ_HANDLER_ERROR".into(), 10), ("early_drop_points".into(), 1000), ("inputs_boundary_straddling".into(), 50), ("readers_panicking_in_drop".into(), 100)] };
     if !acc.violations.is_empty() {
         f.must_reach.clear();
     }
